@@ -167,10 +167,11 @@ def evaluate(prog):
         except Exception:
             text = ""
     ev = list(_log)
-    for c in CANARIES:
-        # Python's own error messages name the types of their operands, so the class-name canary only counts
-        # in a VALUE the expression produced
-        if c in text and (outcome == "value" or c != CANARIES[2]):
+    for c in CANARIES[:2]:
+        # only the VALUES of private attributes are canaries.  The class name is not: Python's own error messages, the
+        # repr of a bound method or str(obj.method) name the class of their operand without the evaluator reading
+        # anything private (a false alarm met in the thorough tier).
+        if c in text:
             ev.append({"e": "leak", "what": c})
     ev.append({"e": "end", "outcome": outcome})
     return ev
